@@ -90,6 +90,7 @@ int main(int argc, char **argv) {
         for (uint64_t s = start_sub; s < nw; ++s) { if (R.expired()) break; vg::weighting(alpha, el.m(), s, w); R.count(C_INPUTS); R.count(C_NONTRIV); run_case(R, cfg, el, w, cyc, dim, u, s, b); }
     };
     double t0 = vr::now_s();
+    A.has("out"); A.require_all_used();
     auto res = R.run(total_units, work, describe);
     double wall = vr::now_s() - t0;
     std::vector<std::string> samples;
